@@ -243,7 +243,8 @@ SPECS: List[Spec] = [
     ("C11", "undo-guard-removed", "rope/base/history.py",
      remove_stmt_where("History.undo", lambda s: isinstance(s, ast.If) and "_undo_list" in ast.unparse(s.test)), ["R11.3"]),
     ("C11", "one-sided-containment", "rope/base/history.py",
-     remove_stmt_where("_FindChangeDependencies._depends_on", lambda s: isinstance(s, ast.If) and "changed.contains(resource)" in ast.unparse(s.test)), ["R11.4"]),
+     replace_expr_where("_FindChangeDependencies._overlap", lambda n: isinstance(n, ast.BoolOp) and isinstance(n.op, ast.Or) and len(n.values) == 2
+                        and all("startswith" in ast.unparse(v) for v in n.values), lambda n: n.values[0]), ["R11.4"]),
     # C12
     ("C12", "contents-fields-swapped", "rope/base/change.py",
      replace_expr_where("ChangeToData.convertChangeContents", lambda n: isinstance(n, ast.Tuple),
@@ -401,7 +402,7 @@ def _move_stmt_to_front(func: str, pred, after_pred):
 def _insert_in_loop(func: str, text: str):
     def edit(tree):
         f = find_func(tree, func)
-        loops = [x for x in ast.walk(f) if isinstance(x, ast.For)] if f is not None else []
+        loops = [x for x in ast.walk(f) if isinstance(x, (ast.For, ast.While))] if f is not None else []
         if not loops:
             return False
         loops[0].body.insert(1, ast.parse(text).body[0])
@@ -492,7 +493,7 @@ def _swap_cmp(op_from, op_to, containing: str):
 
 def _hash_before_string_test(tree):
     f = find_func(tree, "_CustomGenerator._analyze_line")
-    loops = [x for x in ast.walk(f) if isinstance(x, ast.For)] if f is not None else []
+    loops = [x for x in ast.walk(f) if isinstance(x, (ast.For, ast.While))] if f is not None else []
     if not loops:
         return False
     body = loops[0].body
@@ -518,7 +519,8 @@ SPECS += [
     ("C16", "codec-name-without-underscore", "rope/base/fscommands.py",
      replace_expr_where("_find_coding", _const_is(b"-_."), const(b"-.")), ["R16.9"]),
     ("C16", "cookie-delimiter-colon-only", "rope/base/fscommands.py",
-     replace_expr_where("_find_coding", _const_is(b"=:"), const(b":")), ["R16.9"]),
+     replace_expr_where("_find_coding", lambda n: isinstance(n, ast.Tuple) and sorted(getattr(e, "value", None) or b"" for e in n.elts) == [b":", b"="],
+                        lambda n: ast.Tuple(elts=[ast.Constant(value=b":")], ctx=ast.Load())), ["R16.9"]),
     ("C16", "cookie-only-on-first-line", "rope/base/fscommands.py",
      replace_expr_where("read_str_coding", lambda n: isinstance(n, ast.Slice) and isinstance(n.upper, ast.Constant) and n.upper.value == 2,
                         lambda n: ast.Slice(lower=None, upper=ast.Constant(value=1), step=None)), ["R16.10"]),
@@ -691,6 +693,14 @@ SPECS += [
      replace_expr_where("_ChangeComputer.get_changed", lambda n: isinstance(n, ast.Call) and isinstance(n.func, ast.Name) and n.func.id == "sorted", _expr("self.matches")), ["R19.14"]),
     ("C16", "newline-convention-captured-unread", "rope/base/change.py",
      replace_expr_where("ChangeContents.do", _is("self.resource.newlines is None and self.resource.exists()"), _expr("False")), ["R16.14"]),
+]
+SPECS += [
+    ("C07", "all-read-from-lists-only", "rope/refactor/importutils/module_imports.py",
+     replace_expr_where("ModuleImports._get_all_star_list", _is("isinstance(assignment, (ast.List, ast.Tuple))"), _expr("isinstance(assignment, ast.List)")), ["R07.18"]),
+]
+SPECS += [
+    ("C13", "observer-indexes-any-file", "rope/contrib/autoimport/sqlite.py",
+     replace_expr_where("AutoImport._changed", _is("self._is_python_file(resource)"), _expr("not resource.is_folder()")), ["R13.16"]),
 ]
 SPECS = [s for s in SPECS if s[3] is not None]  # (entries without an AST edit are covered by their kept seed)
 
